@@ -431,6 +431,76 @@ func execOp(s *Sexp) string {
 			}
 			return "ok"
 		})
+	case "entryorder":
+		// (entryorder): a map entry whose value field (2) comes BEFORE its key field (1): "fields in any order"
+		return guard(func() string {
+			type holder struct {
+				M map[string]int `plenc:"1"`
+			}
+			p := &plenc.Plenc{}
+			p.RegisterDefaultCodecs()
+			normal := []byte{0x0b, 0x01, 0x05, 0x0a, 0x01, 0x61, 0x10, 0x0e}
+			swapped := []byte{0x0b, 0x01, 0x05, 0x10, 0x0e, 0x0a, 0x01, 0x61}
+			var a, b holder
+			if err := p.Unmarshal(normal, &a); err != nil || a.M["a"] != 7 {
+				return fmt.Sprintf("bad-op the key-first entry did not decode: %v %v", a, err)
+			}
+			if err := p.Unmarshal(swapped, &b); err != nil {
+				return "ok wrong: value-before-key entry rejected: " + clip(err.Error(), 120)
+			}
+			if len(b.M) != 1 || b.M["a"] != 7 {
+				return fmt.Sprintf("ok wrong: value-before-key entry decoded as %v", b.M)
+			}
+			return "ok"
+		})
+	case "reginterntag":
+		// (reginterntag): a codec registered under the tag name "intern" is the one used for that (type, tag)
+		return guard(func() string {
+			type holder struct {
+				A int `plenc:"1,intern"`
+			}
+			p := &plenc.Plenc{}
+			p.RegisterDefaultCodecs()
+			p.RegisterCodecWithTag(reflect.TypeOf(int(0)), "intern", plenccodec.FlatIntCodec[uint]{})
+			data, err := p.Marshal(nil, &holder{A: 3})
+			if err != nil {
+				return "err"
+			}
+			if hx(data) != "x0803" {
+				return "ok wrong: field tagged `intern` encoded as " + hx(data) + ", the codec registered under (int, \"intern\") writes 0803"
+			}
+			return "ok"
+		})
+	case "regmapkind":
+		// (regmapkind): a registered codec for a defined MAP type is used wherever the type occurs
+		return guard(func() string {
+			type probeMap map[string]interface{}
+			type asField struct {
+				M probeMap `plenc:"1"`
+			}
+			type asPtr struct {
+				M *probeMap `plenc:"1"`
+			}
+			type asElem struct {
+				M []probeMap `plenc:"1"`
+			}
+			type asValue struct {
+				M map[string]probeMap `plenc:"1"`
+			}
+			p := &plenc.Plenc{}
+			p.RegisterDefaultCodecs()
+			p.RegisterCodec(reflect.TypeOf(probeMap{}), plenccodec.JSONMapCodec{})
+			var bad []string
+			for _, t := range []reflect.Type{reflect.TypeOf(asField{}), reflect.TypeOf(asPtr{}), reflect.TypeOf(asElem{}), reflect.TypeOf(asValue{})} {
+				if _, err := p.CodecForType(t); err != nil {
+					bad = append(bad, t.Name())
+				}
+			}
+			if len(bad) > 0 {
+				return "ok wrong: rejected although the map type has a registered codec: " + strings.Join(bad, ", ")
+			}
+			return "ok"
+		})
 	case "regintern":
 		// (regintern): a named string type with a registered codec that cannot intern keeps that codec in a
 		// field tagged `intern` (the option asks a codec to intern if it can; it never selects another one).
